@@ -21,7 +21,7 @@ open Hex.X (BinOp UnOp)
 abbrev CInt := Word
 
 /-- Diagnostics by C++ exception class (all derive from `hexutil::Error`). -/
-inductive Diag where
+inductive CDiag where
   | unknownSymbol (name : String)           -- UnknownSymbolError
   | redeclaredSymbol (name : String)        -- RedeclaredSymbolError
   | nonConstArrayLength (name : String)     -- NonConstArrayLengthError
@@ -33,7 +33,7 @@ inductive Diag where
   deriving Repr
 
 /-- Exception class name, as the harness prints it. -/
-def Diag.className : Diag → String
+def CDiag.className : CDiag → String
   | .unknownSymbol _ => "xcmp::UnknownSymbolError"
   | .redeclaredSymbol _ => "xcmp::RedeclaredSymbolError"
   | .nonConstArrayLength _ => "xcmp::NonConstArrayLengthError"
@@ -149,7 +149,7 @@ def SymTab.find? (t : SymTab) (k : SymKey) : Option Symbol :=
   | (k', s) :: rest => if k' = k then some s else SymTab.find? rest k
 
 /-- `SymbolTable::lookup`: the scope first, then the global scope. -/
-def SymTab.lookup (t : SymTab) (scope name : String) : Except Diag Symbol :=
+def SymTab.lookup (t : SymTab) (scope name : String) : Except CDiag Symbol :=
   match t.find? (scope, name) with
   | some s => .ok s
   | none =>
@@ -183,33 +183,33 @@ def formalSymType : X.Formal → SymType
   | .val _ => .val | .array _ => .array | .proc _ => .proc | .func _ => .func
 
 /-- `SymbolTable::insert` (1753-1761): a second declaration of a (scope, name) is an error. -/
-def SymTab.insert (t : SymTab) (k : SymKey) (s : Symbol) : Except Diag SymTab :=
+def SymTab.insert (t : SymTab) (k : SymKey) (s : Symbol) : Except CDiag SymTab :=
   match t.find? k with
   | some _ => .error (.redeclaredSymbol k.2)
   | none => .ok ((k, s) :: t)
 
-def createGlobals : List X.Decl → Nat → SymTab → Except Diag SymTab
+def createGlobals : List X.Decl → Nat → SymTab → Except CDiag SymTab
   | [], _, t => .ok t
   | d :: ds, i, t => do
     let t' ← t.insert ("", d.name)
       { type := declSymType d, node := .gdecl i, isValDecl := declIsVal d, scope := "", name := d.name }
     createGlobals ds (i + 1) t'
 
-def createFormals (p : Nat) (scope : String) : List X.Formal → Nat → SymTab → Except Diag SymTab
+def createFormals (p : Nat) (scope : String) : List X.Formal → Nat → SymTab → Except CDiag SymTab
   | [], _, t => .ok t
   | f :: fs, i, t => do
     let t' ← t.insert (scope, f.name)
       { type := formalSymType f, node := .formal p i, isValDecl := false, scope := scope, name := f.name }
     createFormals p scope fs (i + 1) t'
 
-def createLocals (p : Nat) (scope : String) : List X.Decl → Nat → SymTab → Except Diag SymTab
+def createLocals (p : Nat) (scope : String) : List X.Decl → Nat → SymTab → Except CDiag SymTab
   | [], _, t => .ok t
   | d :: ds, i, t => do
     let t' ← t.insert (scope, d.name)
       { type := declSymType d, node := .ldecl p i, isValDecl := declIsVal d, scope := scope, name := d.name }
     createLocals p scope ds (i + 1) t'
 
-def createProcs : List X.Proc → Nat → SymTab → Except Diag SymTab
+def createProcs : List X.Proc → Nat → SymTab → Except CDiag SymTab
   | [], _, t => .ok t
   | p :: ps, i, t => do
     -- visitPre(Proc) runs before enterProc: the procedure's own symbol lives in the global scope
@@ -220,7 +220,7 @@ def createProcs : List X.Proc → Nat → SymTab → Except Diag SymTab
     createProcs ps (i + 1) t3
 
 /-- `tree->accept(&createSymbols)`. -/
-def createSymbols (P : X.Program) : Except Diag SymTab := do
+def createSymbols (P : X.Program) : Except CDiag SymTab := do
   let t ← createGlobals P.globals 0 []
   createProcs P.procs 0 t
 
